@@ -797,8 +797,16 @@ impl Stub for Backend {
         if self.record {
             self.seen.lock().unwrap().push((self.idx, request));
         }
+        if STALL_NEXT.with(|c| c.replace(false)) {
+            // a backend that never answers: the caller gives up (drops the future) while it waits
+            futures::future::pending::<()>().await;
+        }
         Ok(self.idx)
     }
+}
+thread_local! {
+    /// the next backend call polled on this thread never completes
+    static STALL_NEXT: std::cell::Cell<bool> = const { std::cell::Cell::new(false) };
 }
 fn backends(n: usize, record: bool) -> (Vec<Backend>, Arc<Vec<AtomicU64>>, Arc<Mutex<Vec<(usize, u64)>>>) {
     let counts = Arc::new((0..n).map(|_| AtomicU64::new(0)).collect::<Vec<_>>());
@@ -816,11 +824,28 @@ pub fn c20_round_robin_seq(nb: usize, calls: usize, desc: serde_json::Value) -> 
     let (bs, counts, _) = backends(nb, false);
     let rr = RoundRobin::new(bs);
     let rr2 = rr.clone();
+    let mut abandoned_in_flight = 0usize;
     for i in 0..calls {
         let s = if i % 3 == 2 { &rr2 } else { &rr };
         if i % 5 == 4 {
             // a call future that is created and dropped without ever being polled is not a call
             drop(s.call(context::current(), i as u64));
+        }
+        if i % 7 == 6 {
+            // a call that reached its backend and was given up while waiting for the answer (timeout,
+            // select!) is a call like any other
+            STALL_NEXT.with(|c| c.set(true));
+            let mut f = Box::pin(s.call(context::current(), i as u64));
+            if f.as_mut().now_or_never().is_some() {
+                out.viol("C20", "round-robin-call-failed", format!("a call to a backend that never answers completed (call {i})"));
+            }
+            drop(f);
+            abandoned_in_flight += 1;
+            let (mn, mx) = spread(&counts);
+            if mx - mn > 1 {
+                out.viol("C20", "round-robin-unbalanced", format!("after {} sequential calls over {nb} backends ({abandoned_in_flight} of them given up while in flight) the per-backend counts differ by {} (min {mn}, max {mx})", i + 1 + abandoned_in_flight, mx - mn));
+                break;
+            }
         }
         let r = catch_unwind(AssertUnwindSafe(|| s.call(context::current(), i as u64).now_or_never()));
         match r {
@@ -832,13 +857,13 @@ pub fn c20_round_robin_seq(nb: usize, calls: usize, desc: serde_json::Value) -> 
         }
         let (mn, mx) = spread(&counts);
         if mx - mn > 1 {
-            out.viol("C20", "round-robin-unbalanced", format!("after {} sequential calls over {nb} backends the per-backend counts differ by {} (min {mn}, max {mx})", i + 1, mx - mn));
+            out.viol("C20", "round-robin-unbalanced", format!("after {} sequential calls over {nb} backends ({abandoned_in_flight} of them given up while in flight) the per-backend counts differ by {} (min {mn}, max {mx})", i + 1 + abandoned_in_flight, mx - mn));
             break;
         }
     }
     let total: u64 = counts.iter().map(|c| c.load(Ordering::SeqCst)).sum();
-    if total != calls as u64 && out.viols.is_empty() {
-        out.viol("C20", "round-robin-lost-call", format!("{calls} calls issued, backends saw {total}"));
+    if total != (calls + abandoned_in_flight) as u64 && out.viols.is_empty() {
+        out.viol("C20", "round-robin-lost-call", format!("{} calls issued, backends saw {total}", calls + abandoned_in_flight));
     }
     out.count("round_robin_calls", calls as u64);
     out.cell(format!("C20.rr.seq.backends{}", nb.min(17)));
